@@ -353,6 +353,25 @@ def check_lazy(cfg, shard, res, tables):
             s = a1.signs[I, J]
             if {k: v for k, v in got.items() if v} != ({I ^ J: s} if s else {}):
                 res.violate(violation('lazy-mvprod', f'{name}: blades[{na}]*blades[{nb}]', case, {I ^ J: s}, got))
+    # blades of a lazy algebra that are first asked for through a non-canonical spelling: the spelling asked for gets the
+    # permutation sign, the canonical name (asked afterwards, and again) is the blade itself
+    a4 = make_algebra(cfg)
+    names4 = list(a4.canon2bin)
+    for nm in [n for n in names4 if len(n) == 3][:2] + [n for n in names4 if len(n) == 4][:2]:
+        res.evals += 1
+        odd = nm[0] + nm[2] + nm[1] + nm[3:]
+        I = a4.canon2bin[nm]
+        try:
+            first, _ = mvdict(a4.blades[odd])
+            canon1, _ = mvdict(a4.blades[nm])
+            again, _ = mvdict(a4.blades[odd])
+            canon2, _ = mvdict(a4.blades[nm])
+            if first != {I: -1} or canon1 != {I: 1} or again != {I: -1} or canon2 != {I: 1}:
+                res.violate(violation('lazy-blades:spelling-first', f'{name}: blades[{odd}] asked first, then blades[{nm}]: got {first}, {canon1}, {again}, {canon2}', case,
+                                      f'{{{I}: -1}}, {{{I}: 1}}, {{{I}: -1}}, {{{I}: 1}}', f'{first}, {canon1}, {again}, {canon2}',
+                                      f"from kingdon import Algebra\nalg = {cfg_repro(cfg)}\nprint(alg.blades['{odd}'], alg.blades['{nm}'])"))
+        except Exception as e:
+            res.violate(violation('lazy-blades:raises', f'{name}: blades[{odd}] / blades[{nm}] raises {type(e).__name__}: {e}', case, 'blades', repr(e)))
     tables.add(sha.hexdigest())
     res.count('algebras')
     res.count('lazy_algebras')
